@@ -254,6 +254,15 @@ def run_sampler_dtypes(arg):
         if R.exception is not None:
             r.violation(f"C15/sampler/{sampler}/raises/{R.exception[0]}/{R.exception[1] if len(R.exception) > 2 else ''}/{ns}/{dt}", R.exception, dict(case, stage=stage))
             return False
+        # the set-level estimates the sampler returns with the final population
+        # (not for a resume across precisions: the restored history legitimately holds the increments as they were stored)
+        for nm, got in zip(("log_evidence", "log_evidence_error"), (R.result.get("evidence_dtypes") or ()) if "checkpoint" not in stage else ()):
+            if got != want:
+                r.violation(f"C15/sampler/{sampler}/{nm}-dtype/{stage}/{ns}/requested-{want}/got-{got}", {"got": got, "want": want}, dict(case, stage=stage))
+        if want == "float64" and "float32-checkpoint" not in stage and R.result.get("evidence_exact"):
+            ev = float(R.result["evidence_exact"][0])
+            if np.isfinite(ev) and ev != 0.0 and float(np.float32(ev)) == ev:
+                r.violation(f"C15/sampler/{sampler}/log_evidence-passed-through-float32/{stage}/{ns}", {"log_evidence": ev}, dict(case, stage=stage))
         pops = [("final", R.result["final"])] + [(f"history[{i}]", s) for i, s in enumerate(R.history["sample_history"])]
         for name, s in pops:
             xs = np.asarray(s["x"])
